@@ -1094,27 +1094,15 @@ class DocutilsRenderer(RendererProtocol):
         # note if the link had explicit text or not (autolinks are always implicit)
         explicit = (token.info != "auto") and bool(token.children)
 
-        # split the href up into parts
-        try:
-            uri_parts = urlparse(href)
-        except ValueError as exc:
-            # e.g. "Invalid IPv6 URL" for `inv://[x`
-            self.create_warning(
-                f"Invalid inventory link {href!r}: {exc}",
-                MystWarnings.IREF_MISSING,
-                line=token_line(token, default=0),
-                append_to=self.current_node,
-            )
-            if explicit:
-                # keep the link text (as for an unresolvable `project:` link)
-                return self.render_link_url(token)
-            return
-        target = uri_parts.fragment
+        # split the href up into parts, i.e. `inv:<path>#<target>`
+        # (urlparse would also split off a `?query`, drop tabs and newlines,
+        # and fail on e.g. `inv://[x`)
+        path, _, target = href.partition(":")[2].partition("#")
         invs, domains, otypes = None, None, None
-        if uri_parts.path:
+        if path:
             # the object type is the remainder: it may itself contain `:`,
             # e.g. `rst:directive:option`
-            path_parts = uri_parts.path.split(":", 2)
+            path_parts = path.split(":", 2)
             with suppress(IndexError):
                 invs = path_parts[0]
                 domains = path_parts[1]
